@@ -609,6 +609,44 @@ def replay(ctx):
             for v in x:
                 walk(v)
     walk(d)
+    # findings that are programs (regression corpus, API completeness) or commands (compile matrix): build / run them again
+    progs, cmds = [], []
+    def walk2(x):
+        if isinstance(x, dict):
+            if isinstance(x.get("program"), str) and x["program"].endswith(".cpp"):
+                progs.append(x["program"])
+            if isinstance(x.get("replay_cmd"), str):
+                cmds.append(x["replay_cmd"])
+            for v in x.values():
+                walk2(v)
+        elif isinstance(x, list):
+            for v in x:
+                walk2(v)
+    walk2(d)
+    if progs or cmds:
+        rc = 0
+        for pth in progs[:3]:
+            name = os.path.basename(pth)
+            flags = CORPUS.CORPUS.get(name, ((), []))[1]
+            exe, lg = C.build_harness("replay_" + name[:-4], open(pth).read(), ["-std=c++11", "-w"] + flags)
+            if exe is None:
+                C.log("replay: %s does not build against the current headers: %s" % (pth, [l for l in lg.split("\n") if "error" in l or "undefined" in l][:2])); rc = 1
+                continue
+            r, out_ = C.run([exe], timeout=60)
+            C.log("replay: %s exits %s" % (pth, r))
+            rc = rc or (1 if r != 0 else 0)
+        for cmd in cmds[:3]:
+            import shlex, tempfile
+            dd = tempfile.mkdtemp(prefix="ffsm2_replay_", dir="/var/tmp")
+            try:
+                r, out_ = C.run(shlex.split(cmd) + (["-o", os.path.join(dd, "a.out")] if "-fsyntax-only" not in cmd else []), timeout=600)
+            finally:
+                import shutil; shutil.rmtree(dd, ignore_errors=True)
+            C.log("replay: `%s` exits %s" % (cmd[:160], r))
+            rc = rc or (1 if r != 0 else 0)
+        if rc:
+            C.log("VIOLATION property=%s replay=%s" % (ctx.prop, ctx.replay))
+        return rc
     if not cases:
         C.log("replay: the file holds no stored case (it names a broken obligation or a command): %s" % json.dumps(d)[:600])
         return 0
